@@ -210,6 +210,10 @@ Definition request_make (L : lib) (url : str) (content : option str) (hs : list 
   end.
 
 (* ---------------------------------------------------------------- savehar.py *)
+(* Request.method: self.data.method.decode(utf-8, surrogateescape).upper() -- ASCII methods *)
+Definition to_upper (b : byte) : byte := if is_lower b then Nb (bN b - 32) else b.
+Definition method_of (rq : request) : bytes := map to_upper (rq_method rq).
+
 Definition text_of (t : option val) : res str :=
   match t with
   | None => Ok []
@@ -243,10 +247,10 @@ Definition flow_entry (L : lib) (rq : request) (rs : option response) : res entr
           | None => Ok (noresp_status, noresp_version, [], None, None)
           end ;;
   let '(status, sver, sh, ctext, enc) := resp in
-  let url := if bytes_eqb (rq_method rq) connect_method
+  let url := if bytes_eqb (method_of rq) connect_method
              then connect_url_prefix ++ rq_pretty_url rq ++ connect_url_suffix
              else rq_pretty_url rq in
-  post <- (if existsb (bytes_eqb (rq_method rq)) post_methods then
+  post <- (if existsb (bytes_eqb (method_of rq)) post_methods then
              t <- get_text L (rq_headers rq) (rq_raw rq) ;;
              match t with
              | None => Ok (Some None)
@@ -254,7 +258,7 @@ Definition flow_entry (L : lib) (rq : request) (rs : option response) : res entr
              | Some (VB _) => EOther
              end
            else Ok None) ;;
-  Ok (mkEntry (rq_method rq) url (rq_version rq) (rq_headers rq) post status sver sh ctext enc).
+  Ok (mkEntry (method_of rq) url (rq_version rq) (rq_headers rq) post status sver sh ctext enc).
 
 (* make_har: entries of the HTTP flows, in order; any exception aborts the export *)
 Fixpoint make_har (L : lib) (flows : list flow) : res (list entry) :=
